@@ -2,6 +2,7 @@ SPECIFICATION Spec
 CONSTANTS
   MaxTerm = 3
   MaxBatch = 2
+  WithSnap = TRUE
   Alias = FALSE
   Families <- AllFamilies3
 INVARIANTS TypeOK NoPanic CommittedIsLeaders AppliedIsLeaders AckIsDurable AckedNotLost Quiescent
